@@ -75,17 +75,18 @@ func Time64FromTime(t time.Time) Time64 {
 }
 
 // TimeFromTime64 converts an NTP timestamp to a time.Time using a reference time t0
-// to resolve the NTP timestamp era ambiguity.
+// to resolve the NTP timestamp era ambiguity: of all times that map to t, the
+// one with -2^31 s <= t - t0 < 2^31 s is returned.
 func TimeFromTime64(t Time64, t0 time.Time) time.Time {
-	tref := t0.Unix()
+	tref := Time64FromTime(t0)
 
-	sec := epoch + (tref-epoch)/secondsPerEra*secondsPerEra + int64(t.Seconds)
+	// Signed distance from the reference time in units of 2^-32 s. The 64-bit
+	// subtraction wraps modulo one era, so d identifies the era closest to t0,
+	// before as well as after an era rollover.
+	d := int64((uint64(t.Seconds)<<32 | uint64(t.Fraction)) -
+		(uint64(tref.Seconds)<<32 | uint64(tref.Fraction)))
 
-	// If the timestamp would be too far in the past relative to
-	// the reference time, assume it's from the next era
-	if sec < tref-secondsPerEra/2 {
-		sec += secondsPerEra
-	}
+	sec := t0.Unix() + d>>32 + (int64(tref.Fraction)+d&(1<<32-1))>>32
 
 	// nsec := (int64(t.Fraction)*nanosecondsPerSecond + 1<<31) >> 32
 	nsec := int64(t.Fraction) * nanosecondsPerSecond >> 32
